@@ -402,6 +402,20 @@ func runC17(w *World, r *Report) {
 	r.Rule("C17.tool-streams-merge", "the merge of the per-call result streams dispatches consistently for every number of calls (static select table up to its size, reflect select above it): exactly five calls behave like four and six (shared with C01 / C04 / C08 / C18)", 1)
 	mergeDispatchCheck(w, r, "C17.tool-streams-merge")
 
+	r.Rule("C17.positions-do-not-share-room", "in the concat closure (the per-position lists of concatMessageArray included) no container is filled, in a loop, with two-index windows of one slab: the list of position i grows by append, and with open capacity its second element lands in position i+1's slot — message i+1 carries a chunk of call i, or the concatenation fails with 'different toolCallIDs' (shared with C14)", 0)
+	{
+		n := 0
+		for _, f := range concatClosure(w) {
+			for _, sl := range openWindowsStored(f) {
+				n++
+				r.Fail("C17.positions-do-not-share-room", fmt.Sprintf("%s stores an open-capacity window of a slab", w.fname(f)), sl.Pos(), "slab[a:b] without a capacity bound is stored per position: appends to one position's list overwrite the next position's first element — the streamed frames of a tools node with two calls, the first answering in two chunks, no longer concatenate to the list Invoke returns")
+			}
+		}
+		if n == 0 {
+			r.OK("C17.positions-do-not-share-room", "concat closure", token.NoPos, "no open-capacity windows of a shared slab")
+		}
+	}
+
 	r.Rule("C17.index-preserved", "task i <- tool call i; result i <- task i; result lists sized len(tasks)", 3)
 	{
 		// genToolCallTasks: every store into toolCallTasks[i].<field> uses the index of the input.ToolCalls[i] load
